@@ -539,9 +539,9 @@ func c19Main(cfg *config) {
 		maxLen = 5
 	}
 	c19Enumerate([]string{`"`, `'`, "+", "-", "0", "1", "9", ".", "e", "x", "_"}, maxLen, func(v string) { emit("V", hexf(v)) })
-	nrand := 6000
+	nrand := 20000
 	if thorough {
-		nrand = 60000
+		nrand = 100000
 	}
 	for i := 0; i < nrand; i++ {
 		emit("V", hexf(c19RandomValue(r)))
@@ -581,9 +581,9 @@ func c19Main(cfg *config) {
 		return f
 	}
 	paths := []string{"/m", "/some/method", "m", "//m//", "/", "", "///", "/a/ok", "/ok"}
-	nq := 1500
+	nq := 5000
 	if thorough {
-		nq = 15000
+		nq = 30000
 	}
 	for _, q := range []string{"x=%zz", "x=1;y=2", "%", "x=1&y=%", "x=%41", "x", "x&y", "=1", "&&", "x=1&&y=2"} {
 		// raw queries written by hand: which of them make ParseForm fail is net/url's business; the
@@ -599,9 +599,9 @@ func c19Main(cfg *config) {
 
 	// 4. Getter
 	gm := []string{"/ok", "/a/ok", "//ok/", "/inv", "/plain", "/nf", "/custom", "/data", "/nosuch", "/rpc.serverInfo", "/", "", "/rpc.nosuch"}
-	ng := 400
+	ng := 1500
 	if thorough {
-		ng = 4000
+		ng = 8000
 	}
 	for _, p := range gm {
 		for _, parser := range []string{"q", "b"} {
